@@ -126,7 +126,18 @@ def streams(rng, tier):
                     if lo <= x <= hi:
                         e_ops.append(f"iser {kind} {kind}:{x}")
     e_ops = list(dict.fromkeys(e_ops))
-    s1 = Stream("interop-bytes", "hserde", e_ops, model_ops=[model_op(o) for o in e_ops], judge=judge_iser, rule=RULE)
+    # failed to_vec calls (either codec) in between: what a failed call leaves behind on the thread must not show in the next value's bytes
+    mixed, k = [], 0
+    for i, o in enumerate(e_ops):
+        if i % 23 == 5:
+            mixed.append(f"serfail {[0, 1, 3, 24, 300][k % 5]} {['both', 'bridge', 'native'][k % 3]}"); k += 1
+        mixed.append(o)
+    e_ops = mixed
+    def judge_iser2(op, impl, model, spec):
+        if op.startswith("serfail"):
+            return "ok" if all(x in ("err", "-") for x in impl.split(" | ")) else "violation"
+        return judge_iser(op, impl, model, spec)
+    s1 = Stream("interop-bytes", "hserde", e_ops, model_ops=["nop" if o.startswith("serfail") else model_op(o) for o in e_ops], judge=judge_iser2, rule=RULE)
     s2 = Stream("interop-decode", "hserde", d_ops, model_ops=[model_op(o) for o in d_ops], judge=judge_ide,
                 rule="ide <type> <framing of an encoding> #m=<mode> #v=<value>", nontrivial=lambda op, impl: impl.startswith("ok") or " | ok" in impl)
     s3 = Stream("interop-hostile", "hserde", h_ops, model_ops=[model_op(o) for o in h_ops], judge=judge_ide,
